@@ -357,3 +357,69 @@ func (w *Walker) condFailGuard(ev *Event, subs []string, rejectWhen bool, condTe
 	}
 	return "", false
 }
+
+// pathGuard: in some frame of the chain, on EVERY feasible path from that
+// function's entry to the (lifted) site, an atomic condition whose text contains
+// all of subs has been decided with the given value. Unlike failGuard this
+// follows conjunctions/disjunctions exactly: `if U && (A || B) { reject }`
+// guards a sink only if the sink's own path condition implies (A || B).
+type guardAlt struct {
+	Value bool
+	Subs  []string
+}
+
+func (w *Walker) pathGuard(fr *Frame, site ssa.Instruction, value bool, subs ...string) (string, bool) {
+	return w.pathGuardAny(fr, site, guardAlt{value, subs})
+}
+
+// pathGuardAny: every feasible path decides at least one of the alternatives.
+func (w *Walker) pathGuardAny(fr *Frame, site ssa.Instruction, alts ...guardAlt) (string, bool) {
+	cur := site
+	for f := fr; f != nil; f = f.Parent {
+		if cur != nil && f.Fn != nil && f.Fn.Blocks != nil {
+			ff := f
+			envs, complete := pathAssignments(f.Fn, cur, func(v ssa.Value) string { return w.ts.Of(v, ff).LooseString() })
+			if complete && len(envs) > 0 {
+				all := true
+				used := map[string]bool{}
+				for _, env := range envs {
+					found := false
+					for k, v := range env {
+						for _, a := range alts {
+							match := v == a.Value
+							for _, s := range a.Subs {
+								if !strings.Contains(k, s) {
+									match = false
+								}
+							}
+							if match {
+								found = true
+								used[fmt.Sprintf("%s is %v", k, v)] = true
+							}
+						}
+					}
+					if !found {
+						all = false
+						break
+					}
+				}
+				if all {
+					return fmt.Sprintf("on all %d feasible paths of %s to the site: %s", len(envs), shortFn(f.Fn), strings.Join(sortedKeys(used), " or ")), true
+				}
+			}
+		}
+		switch {
+		case f.Via != nil:
+			cur = f.ViaSite
+			f = &Frame{Parent: f.Via}
+			continue
+		case f.Call != nil:
+			cur = f.Call
+		case f.MC != nil:
+			cur = f.MC
+		default:
+			cur = nil
+		}
+	}
+	return "", false
+}
